@@ -4,10 +4,15 @@
  * fails (NULL, EOF indicator clear). Cells: LEN = line length without terminator, HAS_NL = line is newline-terminated
  * (then XTRA more bytes follow which must not be consumed) or ends at end of data. Line bytes are any value except NUL and
  * newline (a C-string line reader cannot represent NUL: outside the claim).
- * Oracle: no fault => result is exactly the LEN line bytes (+ '\n' iff HAS_NL): not cut at the 255-byte block, no
+ * FB = phosg::fgets' internal block size in this build (256 in the source; spec: src_subst replaces it so that lines of
+ * one, two and three blocks are within reach).
+ * Oracle: no fault => result is exactly the LEN line bytes (+ '\n' iff HAS_NL): not cut at the block boundary, no
  * embedded NUL padding; nothing after the newline is consumed. Fault => io_error. */
 #include "harness.h"
-#include "env_msg.h"
+#ifndef VERIF_NATIVE_REAL
+/* generated C only (spec: unit cuts this constructor): it only formats the what() text. Throw and type are encoded. */
+void X__ZN5phosg8io_errorC1EiRKNSt7__cxx1112basic_stringIcSt11char_traitsIcESaIcEEE(uint8_t* self, uint32_t fd, uint8_t* what) { (void)self; (void)fd; (void)what; }
+#endif
 int64_t w_fgets(uint8_t* f, uint8_t* out, uint64_t cap);
 
 #define W_IO_ERROR (-20)
@@ -16,7 +21,7 @@ int64_t w_fgets(uint8_t* f, uint8_t* out, uint64_t cap);
 #endif
 #define T (LEN + (HAS_NL ? 1 + XTRA : 0))
 #define EXPECT (LEN + (HAS_NL ? 1 : 0))
-#define MAXCALLS (LEN / 255 + 3)
+#define MAXCALLS (LEN / (FB - 1) + 3)
 static uint8_t file_obj[8];
 static uint8_t content[T + 1];
 static uint64_t pos;
@@ -25,7 +30,7 @@ static uint8_t fault[MAXCALLS + 1];
 
 uint8_t* STUB(fgets)(uint8_t* s, uint32_t size, uint8_t* f) {
   ASSERT(f == file_obj, "fgets on the given stream");
-  ASSERT((int32_t)size >= 2, "fgets is given room for at least one character");
+  ASSERT(size == FB, "fgets is given the whole block");
   ASSERT(calls < MAXCALLS, "BOUND: number of fgets() calls");
   ASSUME(calls < MAXCALLS);
   int j = calls++;
@@ -45,7 +50,7 @@ uint32_t STUB(feof)(uint8_t* f) { (void)f; return (uint32_t)eof_flag; }
 uint32_t STUB(fileno)(uint8_t* f) { (void)f; return 5; }
 
 void harness(void) {
-  static uint8_t out[EXPECT + 260];
+  static uint8_t out[EXPECT + FB + 4];
   for (int i = 0; i < T; i++) {
     content[i] = in_u8();
     if (HAS_NL && i == LEN) content[i] = '\n';
